@@ -614,6 +614,12 @@ func frameGen(r *rng, tier string, idx int, o *out, do func(string) string) stri
 	}
 	// 6. through readLoop
 	emit("readLoop", "loop "+sizesCSV(randomSizes(r, total, false))+" "+eofd())
+	// 7. every single cut position of a short stream
+	if total >= 2 && total <= 64 && r.chance(1, 10) {
+		for q := 1; q < total; q++ {
+			emit("every-cut", fmt.Sprintf("cuts %d %s", q, yn(q%2 == 0)))
+		}
+	}
 	return kind
 }
 
